@@ -890,6 +890,60 @@ func (tr *FnTr) exceptionalExit(fc *FuncContract, fn *ssa.Function) {
 	for _, o := range tr.privObjs {
 		vc.Assume(Lt(o, st.Alloc))
 	}
+	// the result slots hold at the exceptional exit what they held at one of the covered
+	// panic points (grouped by content: usually the zero value everywhere)
+	if slots := tr.resultSlots(); len(slots) > 0 && len(tr.excSlots) > 0 {
+		var cur []*Term
+		for _, a := range slots {
+			obj := tr.privAllocObj[a]
+			n := sizeOf(a.Type().Underlying().(*types.Pointer).Elem())
+			for k := 0; k < n && k < 8; k++ {
+				cur = append(cur, Select(Select(st.Mem, obj), Int(int64(k))))
+			}
+		}
+		groups := map[string][]*Term{}
+		valsOf := map[string][]*Term{}
+		var order []string
+		for _, es := range tr.excSlots {
+			var kb strings.Builder
+			for _, v := range es.Vals {
+				kb.WriteString(v.Key())
+				kb.WriteByte('|')
+			}
+			k := kb.String()
+			if _, ok := groups[k]; !ok {
+				order = append(order, k)
+				valsOf[k] = es.Vals
+			}
+			groups[k] = append(groups[k], es.Reach)
+		}
+		eqAll := func(vals []*Term) *Term {
+			var cs []*Term
+			for i := range cur {
+				if i < len(vals) {
+					cs = append(cs, Eq(cur[i], vals[i]))
+				}
+			}
+			return And(cs...)
+		}
+		if os.Getenv("GOCV_DEBUG_EXC") != "" {
+			fmt.Fprintf(os.Stderr, "exc slots: %d slots, %d edges, %d groups\n", len(slots), len(tr.excSlots), len(order))
+			for i, k := range order {
+				if i < 5 {
+					fmt.Fprintf(os.Stderr, "  group %d: %.200s\n", i, k)
+				}
+			}
+		}
+		if len(order) == 1 {
+			vc.Assume(eqAll(valsOf[order[0]]))
+		} else if len(order) <= 12 {
+			var alts []*Term
+			for _, k := range order {
+				alts = append(alts, And(Or(groups[k]...), eqAll(valsOf[k])))
+			}
+			vc.Assume(Or(alts...))
+		}
+	}
 	tr.st = st
 	tr.assumeGlobals()
 	tr.rets = nil
